@@ -14,8 +14,10 @@ import (
 	"database/sql"
 	"encoding/json"
 	"fmt"
+	"bytes"
 	"io"
 	"log"
+	"mime/quotedprintable"
 	"net/http"
 	"net/url"
 	"regexp"
@@ -64,6 +66,7 @@ type vsAttempt struct {
 type vsFileSpec struct {
 	name string
 	text string
+	qp   bool // sent in quoted-printable transfer encoding
 }
 
 type vsClient struct {
@@ -272,12 +275,25 @@ func (e *vsEnv) upload(c *vsClient, a *vsAttempt) {
 			break
 		}
 		sim.Yield("client:create-file")
-		w, err := u.CreateFile(f.name)
+		var w io.Writer
+		var err error
+		data := []byte(f.text)
+		if f.qp {
+			w, err = u.VerifCreateQPFile(f.name)
+			var enc bytes.Buffer
+			qw := quotedprintable.NewWriter(&enc)
+			qw.Binary = true // every byte, line breaks included, comes back as it was
+			qw.Write(data)
+			qw.Close()
+			data = enc.Bytes()
+			r.Hit("file part sent in quoted-printable transfer encoding")
+		} else {
+			w, err = u.CreateFile(f.name)
+		}
 		if err != nil {
 			failed = true
 			break
 		}
-		data := []byte(f.text)
 		sent := 0
 		for sent < len(data) {
 			n := len(data) - sent
@@ -798,7 +814,7 @@ func (e *vsEnv) genAttempt(faultsOn bool, force *vsFault) *vsAttempt {
 	}
 	for i := 0; i < nf; i++ {
 		name := []string{"bench.txt", "a/b/c.txt", "", `win\path.txt`, "new.txt", "old.txt"}[T.Intn(6, "fname")]
-		a.files = append(a.files, vsFileSpec{name: name, text: vsGenFile(T, opts)})
+		a.files = append(a.files, vsFileSpec{name: name, text: vsGenFile(T, opts), qp: force == nil && T.Intn(15, "quoted-printable") == 0})
 	}
 	if force != nil {
 		a.fault = *force
